@@ -24,7 +24,7 @@ CONST = [A('a'), A('b'), I(1), NIL]
 
 def plan(tier, seed):
     if tier == 'quick':
-        return {'n': 24000, 'deadline': 50,
+        return {'n': 24000, 'deadline': 150,
                 'floor': {'distinct_nontrivial': 5000, 'compiled_histories': 5000, 'api_histories': 3000,
                           'bound_before_assert': 4000, 'bound_after_assert': 4000, 'uses_in_same_clause': 6000,
                           'simultaneous_enumerations': 1000, 'use_after_backtracking': 5000}}
